@@ -169,7 +169,11 @@ def build(cfg, raw, placement):
     bind_repo()
     cands = fresh(raw)
     kw = {}
-    if placement[0] == "field":
+    if placement[0] == "ha":
+        kw["candlestick_type"] = "HA"
+        if cfg["cls"] in HAS_INPUT:
+            kw["input_value"] = placement[1]
+    elif placement[0] == "field":
         if cfg["cls"] in HAS_INPUT:
             kw["input_value"] = placement[1]
     else:
@@ -185,7 +189,7 @@ def build(cfg, raw, placement):
 
 def xseries(raw, placement):
     cs = [r[:5] for r in raw]
-    if placement[0] == "field":
+    if placement[0] in ("field", "ha"):
         return R.col(cs, placement[1])
     k = placement[1]
     return [Iv(c[3]) if i >= k else None for i, c in enumerate(cs)]
@@ -194,10 +198,12 @@ def xseries(raw, placement):
 def placements(cfg, tier):
     if cfg["label"].endswith("d") and cfg in DEFAULTS:
         return [("field", "close")] + ([("late", 3)] if cfg["cls"] in HAS_INPUT else [])
+    # ("ha", field): the indicator converts its candles to Heikin-Ashi; the definitions must then hold on the converted candles
+    # (taken from the library as they are - the conversion itself is C11's)
     if cfg["cls"] not in HAS_INPUT:
-        return [("field", "close")]
+        return [("field", "close"), ("ha", "close")]
     ks = (1, 2, 3) if tier == "quick" else (1, 2, 3, 5)
-    return [("field", "close"), ("field", "high"), ("field", "volume")] + [("late", k) for k in ks]
+    return [("field", "close"), ("field", "high"), ("field", "volume"), ("ha", "close")] + [("late", k) for k in ks]
 
 
 def one(prop, rep, cfg, word, raw, placement, horizon):
@@ -219,7 +225,11 @@ def one(prop, rep, cfg, word, raw, placement, horizon):
     got = ind.as_list()
     rep.add("states", tuple(repr(g) for g in got))
     cs = [r[:5] for r in raw]
-    exp = reference(cfg, cs, xseries(raw, placement))
+    if placement[0] == "ha":
+        cs = [(c.open, c.high, c.low, c.close, c.volume) for c in ind.candles]
+        exp = reference(cfg, cs, xseries(cs, placement))
+    else:
+        exp = reference(cfg, cs, xseries(raw, placement))
     ok = compare(prop, rep, cfg, exp, got, case)
     # documented use of recalculate(): "ideal for changing an indicator parameters midway" - build with period+1, calculate,
     # set the period, recalculate: the readings must be those of the new period (simple averages only: composites fix their
